@@ -16,7 +16,7 @@ package uncompng
 //@ func crc32IEEE
 //@   prop C19
 //@   pure
-//@   loop 1 invariant rangeindex >= -1
+//@   loop 1 invariant rangeindex >= -1 && rangeindex <= len(b)
 //@   loop 1 decreases len(b) - rangeindex
 
 //@ func (*Encoder).updateAdler32
